@@ -17,7 +17,9 @@ def nest(kind, depth, leaf):
 class C19(Prop):
     id = 'C19'
     module = 'Cbor.Props.C19'
-    theorems = ['Props.C19.C19_all_limits', 'Props.C19.C19_stack_bound', 'Props.C19.C19_reject_step', 'Props.C19.C19_accept_step',
+    extra_modules = ['Cbor.Lemmas.Depth']
+    theorems = ['Props.C19.C19_rdepth_decoded', 'Props.C19.C19_loaded_depth', 'Props.C19.C19_release_depth', 'Props.C19.C19_release_restores', 'Lemmas.Depth.decode_ok_depth', 'Lemmas.Depth.decref_own_depth', 'Lemmas.Depth.rdepth_le_openDepth',
+                'Props.C19.C19_all_limits', 'Props.C19.C19_stack_bound', 'Props.C19.C19_reject_step', 'Props.C19.C19_accept_step',
                 'Props.C19.C19_flat_step', 'Lemmas.Refine.load_eq']
     trusted_base = BASE_TRUST + MODEL_TRUST + [
         'C19: native stack consumption per frame cannot be exhibited by the model; the pipeline (load, describe, size, serialize, copy, release) '
